@@ -59,22 +59,27 @@ class C11(Check):
         "random-based id generators are reseeded identically before each half; the uuid generator is not used here",
     ]
     trusted_base = ['none beyond the harness: both halves are the implementation under test']
-    required_classes = ['server/plain', 'server/stack', 'client-script', 'client-retry', 'client-notation', 'server/async-plain-functions', 'codec/classes', 'codec/functions', 'strict/off']
+    required_classes = ['server/plain', 'server/stack', 'client-script', 'client-retry', 'client-notation', 'server/async-plain-functions', 'codec/classes', 'codec/functions', 'strict/off', 'client-notation/empty-batch']
 
     def strategy(self, tier: str):
         def server_plain():
             reg = stdreg.std_registry('sync')
             return st.builds(lambda text, beh, mbs, codec: {'kind': 'server', 'max_batch_size': batch_limit(text, mbs), 'behaviours': beh, 'text': text,
                                                             'middlewares': [], 'handlers': None, 'codec': codec},
-                             docs.document(reg), stdreg.behaviours(True), st.sampled_from(BATCH_LIMITS), st.sampled_from(CODEC_CHOICES))
+                             docs.document(reg), stdreg.behaviours(True), st.sampled_from(BATCH_LIMITS), st.sampled_from(CODEC_CHOICES + ['cls-ignoring']))
         s12 = c12.CHECK.strategy(tier).map(lambda s: {'kind': 'server', 'max_batch_size': None, 'behaviours': s['behaviours'], 'text': s['text'],
-                                                      'middlewares': s['middlewares'], 'handlers': s['handlers'], 'mw_container': s.get('mw_container', 'list')})
+                                                      'middlewares': s['middlewares'], 'handlers': s['handlers'], 'mw_container': s.get('mw_container', 'list'),
+                                                      'custom_classes': bool(s.get('custom_classes'))})
         s_codec = st.sampled_from(['default', 'default'] + ch.CODECS[1:])
         s_strict = st.sampled_from([True, True, False])
         s19 = st.tuples(c19.CHECK.strategy(tier), s_codec, s_strict).map(lambda t: {**t[0], 'kind': 'client-script', 'codec': t[1], 'strict': t[2]})
         s09 = st.tuples(c09.CHECK.strategy(tier), s_codec, s_strict).map(lambda t: {**t[0], 'kind': 'client-retry', 'codec': t[1], 'strict': t[2]})
         s07 = c07.CHECK.strategy(tier).filter(lambda s: s['id_gen']['kind'] != 'uuid').map(lambda s: {**s, 'kind': 'client-notation'})
-        return st.one_of(server_plain(), server_plain(), s12, s19, s09, s07)
+        # a batch object nothing was added to, sent through every batch notation (both halves must do the same thing with it)
+        s_empty = st.builds(lambda n, strict, d: {'kind': 'client-notation', 'client': 'sync', 'dispatcher': d, 'strict': strict, 'id_gen': {'kind': 'sequential', 'start': 1, 'step': 1},
+                                                  'notation': n, 'other': None, 'plan': [], 'behaviours': {}, 'seed': 0},
+                            st.sampled_from(c07.BATCH_NOTATIONS), st.booleans(), st.sampled_from(['sync', 'async']))
+        return st.one_of(server_plain(), server_plain(), s12, s19, s09, s07, s07, s07, s07, s_empty)
 
     def corpus(self):
         t = lambda doc: {'doc': doc, 'ascii': True, 'indent': 0, 'pad': '', 'huge': None, 'mangle': None}  # noqa: E731
@@ -88,9 +93,13 @@ class C11(Check):
             out.append({'kind': 'server', 'max_batch_size': None, 'behaviours': {'ret': {'kind': 'return', 'value': value}}, 'middlewares': [], 'handlers': None,
                         'text': t([{'jsonrpc': '2.0', 'id': 1, 'method': 'ret'}, {'jsonrpc': '2.0', 'id': 2, 'method': 'echo', 'params': [value]},
                                    {'jsonrpc': '2.0', 'id': 3, 'method': 'wrapped', 'params': [value]}])})
-        for codec in ch.CODECS[1:]:
+        for codec in ch.CODECS[1:] + ['cls-ignoring']:
             out.append({'kind': 'server', 'max_batch_size': None, 'behaviours': {}, 'middlewares': [], 'handlers': None, 'codec': codec,
                         'text': t([{'jsonrpc': '2.0', 'id': 1, 'method': 'echo', 'params': [1.5]}, {'jsonrpc': '2.0', 'id': 2, 'method': 'echo', 'params': {'a': [0.25]}}])})
+        for notation in c07.BATCH_NOTATIONS:
+            for strict in (True, False):
+                out.append({'kind': 'client-notation', 'client': 'sync', 'dispatcher': 'sync', 'strict': strict, 'id_gen': {'kind': 'sequential', 'start': 1, 'step': 1},
+                            'notation': notation, 'other': None, 'plan': [], 'behaviours': {}, 'seed': 0})
         # non-strict scripted clients: a notification (and a notification-only batch) whose transport answers with a body
         for rk in ('notification', 'single', 'batch'):
             for word in (['not-response', 'ok'], ['scalar-body', 'ok'], ['identity', 'ok'], ['not-json', 'ok']):
@@ -132,6 +141,9 @@ class C11(Check):
         if spec.get('codec', 'default') != 'default':
             from pbt import codecs
             kw.update(codecs.kwargs_for(spec['codec'], 'server'))
+        if spec.get('custom_classes'):
+            kw.update({'request_class': type('AppRequest', (pjrpc.Request,), {}), 'response_class': type('AppResponse', (pjrpc.Response,), {}),
+                       'batch_request': type('AppBatchRequest', (pjrpc.BatchRequest,), {}), 'batch_response': type('AppBatchResponse', (pjrpc.BatchResponse,), {})})
         d = hm.build_dispatcher(dkind, stdreg.std_registry(regkind), **kw)
         text = docs.render(spec['text'])
         out: Dict[str, Any] = {'text': text}
@@ -295,7 +307,7 @@ class C11(Check):
                 discs.append(Disc(f"C11/client-notation/{key}", f"sync {jg.short(obs[0][key], 350)} vs async {jg.short(obs[1][key], 350)} | {where}"))
                 break
         nontrivial = len(spec['plan']) >= 2 or any(k == 'exc' for k, _ in obs[0]['outcomes'])
-        return Outcome(discs, nontrivial, ['client-notation', f"notation/{notation}"], evaluations=2)
+        return Outcome(discs, nontrivial, ['client-notation', f"notation/{notation}"] + (['client-notation/empty-batch'] if not spec['plan'] else []), evaluations=2)
 
 
 CHECK = C11()
